@@ -38,6 +38,12 @@ def main():
     req = json.loads(sys.argv[1])
     model = req.get('model') or {}
     parsed = parse_fuc(req.get('fuc') or '')
+    if parsed and parsed[1].split('.')[-1] in ('define_blockshape_3d', 'define_blockshape_2d'):
+        print(json.dumps(replay_blockshape(parsed[1].split('.')[-1], model)))
+        return
+    if parsed and parsed[1].split('.')[-1] == '_parse_coordinates':
+        print(json.dumps(replay_axes_reader(model), default=str))
+        return
     if not parsed or parsed[3] is None:
         print(json.dumps({'reproduced': None, 'detail': 'no scenario builder for this function'}))
         return
@@ -60,6 +66,9 @@ def main():
         return
     from oracle import native_calls as NC
     method = qual.split('.')[-1]
+    if method == 'make_header':
+        print(json.dumps(replay_writer(model, rate, b, two_d, var), default=str))
+        return
     known_args = {'read_inline': ['il_id'], 'read_crossline': ['xl_id'], 'read_zslice': ['zslice_id'], 'read_volume': [],
                   'read_subvolume': ['min_il', 'max_il', 'min_xl', 'max_xl', 'min_z', 'max_z'],
                   'read_subplane': ['min_trace', 'max_trace', 'min_z', 'max_z'],
@@ -97,6 +106,120 @@ def main():
         NC.cleanup()
     print(json.dumps({'reproduced': bool(bad), 'detail': bad[:3] if bad else f'{len(cases)} concrete call(s) behaved as specified',
                       'case': cases[0] if cases else None}, default=str))
+
+
+def replay_blockshape(fn, model):
+    """run the real define_blockshape on the model's arguments against the exact-fraction validity oracle"""
+    from fractions import Fraction
+    import seismic_zfp.utils as U
+    bits = model.get('bits_per_voxel', model.get('bits_per_voxel(str)'))
+    try:
+        bits_v = float(Fraction(bits)) if bits is not None else None
+    except Exception:
+        bits_v = None
+    bs = [ival(model, f'blockshape[{k}]') for k in range(3)]
+    if bits_v is None or any(x is None for x in bs):
+        return {'reproduced': None, 'detail': 'model lacks arguments'}
+    if bits_v == int(bits_v):
+        bits_v = int(bits_v)
+    RATES = [Fraction(1, 4), Fraction(1, 2)] + [Fraction(x) for x in (1, 2, 4, 8, 16, 32)]
+    POW2 = [2 ** j for j in range(2, 14)]
+    two_d = fn.endswith('2d')
+
+    def valid(r, b):
+        try:
+            r = Fraction(r)
+        except Exception:
+            return False
+        return r in RATES and all(d in POW2 for d in (b[1:] if two_d else b)) and (not two_d or (b[0] == 1 and 16 * r >= 9)) and r * b[0] * b[1] * b[2] == 32768
+    try:
+        r, b = getattr(U, fn)(bits_v, tuple(bs))
+    except Exception as e:
+        return {'reproduced': False, 'detail': f'refused with {type(e).__name__} (refusals of invalid settings are correct; completeness is replayed by the bounded grid)',
+                'case': {'bits_per_voxel': bits_v, 'blockshape': bs}}
+    if not valid(r, b):
+        return {'reproduced': True, 'detail': f'{fn}({bits_v}, {tuple(bs)}) accepted the invalid setting {(r, b)}', 'case': {'bits_per_voxel': bits_v, 'blockshape': bs}}
+    return {'reproduced': False, 'detail': f'accepted valid setting {(r, b)}'}
+
+
+def axis_from(model, name, n):
+    s0, st = ival(model, name + '[0]'), ival(model, name + '_step')
+    if s0 is None or st in (None, 0):
+        return list(range(n))
+    return [s0 + k * st for k in range(n)]
+
+
+def replay_writer(model, rate, b, two_d, var):
+    """convert a random cube with the model's shape / axes through the real NumPy route (library version stamped
+    0.2.8) and check the file against the specification: conformance, spec decode == expected image, reader axes"""
+    import tempfile, shutil
+    import numpy as np
+    from oracle import specsgz as S, segygen as G
+    if two_d or 'irregular' in var:
+        return {'reproduced': None, 'detail': 'writer replay implemented for the regular 3-D NumPy route only'}
+    shape = [ival(model, 'n_ilines'), ival(model, 'n_xlines'), ival(model, 'n_samples')]
+    if any(x is None for x in shape):
+        return {'reproduced': None, 'detail': 'model lacks a shape'}
+    shape = [min(max(x, 2), 40) for x in shape]          # a small cube with the same residues is enough for header words
+    il, xl = axis_from(model, 'ilines', shape[0]), axis_from(model, 'xlines', shape[1])
+    t0, dt = ival(model, 't0_ms') or 0, ival(model, 'interval_us') or 4000
+    if any(abs(v) >= 2 ** 31 for v in il + xl):
+        return {'reproduced': None, 'detail': 'axis values outside int32 after shrinking'}
+    from seismic_zfp.conversion import NumpyConverter
+    from seismic_zfp.read import SgzReader
+    rng = np.random.default_rng(0)
+    cube = rng.standard_normal(shape).astype(np.float32)
+    d = tempfile.mkdtemp(prefix='verif_w_')
+    probs = []
+    try:
+        fn = d + '/w.sgz'
+        samples = t0 + np.arange(shape[2]) * (dt / 1000.0)
+        with G.LibVersion('0.2.8'):
+            with NumpyConverter(cube, ilines=np.array(il, dtype=np.int32), xlines=np.array(xl, dtype=np.int32), samples=samples) as c:
+                c.run(fn, bits_per_voxel=rate, blockshape=tuple(b))
+        buf = open(fn, 'rb').read()
+        h = S.parse_header(buf)
+        from fractions import Fraction
+        P = [S.pad_to(n, bb) for n, bb in zip(shape, b)]
+        want_blocks = int(Fraction(rate) * P[0] * P[1] * P[2] / 8 / 4096)
+        if h['diskblocks'] != want_blocks:
+            probs.append(f"header says {h['diskblocks']} data blocks, specification (padded voxels x bits / 8 / 4096) gives {want_blocks}")
+        for k, v in (('nZ', shape[2]), ('nX', shape[1]), ('nI', shape[0]), ('il0', il[0]), ('xl0', xl[0]), ('il_step', il[1] - il[0]), ('xl_step', xl[1] - xl[0]), ('z0', t0), ('dz', dt)):
+            if h[k] != v:
+                probs.append(f'header word {k} = {h[k]}, source says {v}')
+        with SgzReader(fn) as r:
+            if list(r.ilines) != il or list(r.xlines) != xl:
+                probs.append(f'reader axes {list(r.ilines)[:4]}.. / {list(r.xlines)[:4]}.. differ from the source {il[:4]}.. / {xl[:4]}..')
+    except Exception as e:
+        probs.append(f'{type(e).__name__}: {e}')
+    finally:
+        shutil.rmtree(d, ignore_errors=True)
+    return {'reproduced': bool(probs), 'detail': probs or 'file conforms', 'case': {'shape': shape, 'rate': rate, 'blockshape': b, 'ilines': il[:3], 'xlines': xl[:3]}}
+
+
+def replay_axes_reader(model):
+    """oracle-written file with distinct inline / crossline increments -> axes reported by the real reader"""
+    import tempfile, shutil
+    import numpy as np
+    from oracle import specsgz as S
+    from seismic_zfp.read import SgzReader
+    d = tempfile.mkdtemp(prefix='verif_a_')
+    probs = []
+    try:
+        cube = np.zeros((5, 6, 7), dtype=np.float32)
+        for (il, xl) in (([10, 13, 16, 19, 22], [100, 98, 96, 94, 92, 90]), ([-5, -4, -3, -2, -1], [7, 14, 21, 28, 35, 42])):
+            buf = S.encode(cube, 4, (4, 4, 512), ilines=il, xlines=xl, z0_ms=-8, dz_us=2500)
+            fn = d + '/a.sgz'
+            open(fn, 'wb').write(buf)
+            with SgzReader(fn) as r:
+                if list(r.ilines) != il or list(r.xlines) != xl:
+                    probs.append(f'axes {list(r.ilines)} / {list(r.xlines)} but the header says {il} / {xl}')
+                zs = [-8 + 2.5 * k for k in range(7)]
+                if not np.allclose(r.zslices, zs, rtol=0, atol=1e-9):
+                    probs.append(f'sample axis {list(r.zslices)[:3]} but the header says {zs[:3]}')
+    finally:
+        shutil.rmtree(d, ignore_errors=True)
+    return {'reproduced': bool(probs), 'detail': probs or 'reader axes match the header', 'case': 'oracle-written 5x6x7 files, steps (3,-2) and (1,7)'}
 
 
 def loader_cases(method, model, shape, rate, b, two_d):
